@@ -364,6 +364,9 @@ impl Scenario for MemoMadeInClosure {
         let escaped: Rc<RefCell<Vec<(Memoised, Rc<Cell<u32>>)>>> = Rc::new(RefCell::new(vec![]));
         let esc = escaped.clone();
         let xw = x.watch();
+        // a memoised function made by this run of the closure has never returned anything: its first call runs the function
+        let fresh_fn_hit = Rc::new(Cell::new(false));
+        let ffh = fresh_fn_hit.clone();
         let b = sel.binds(move |ws, s: &SV| {
             let calls = Rc::new(Cell::new(0u32));
             let (c2, xw2, cap) = (calls.clone(), xw.clone(), s.clone());
@@ -373,6 +376,9 @@ impl Scenario for MemoMadeInClosure {
                 xw2.map(move |v| app(30 + k as u16, &[cap.clone(), v.clone()]))
             });
             let n = m(0);
+            if calls.get() != 1 {
+                ffh.set(true);
+            }
             esc.borrow_mut().push((Box::new(m), calls));
             n
         });
@@ -424,7 +430,11 @@ impl Scenario for MemoMadeInClosure {
                         op_log("Stabilise".into());
                         let runs = escaped.borrow().len();
                         state.stabilise();
+                        if fresh_fn_hit.get() {
+                            violation("C20/fresh-memoised-function-did-not-invoke", "a function memoised by this run of the bind closure returned a node for key 0 without running the underlying function (it had never been called)".into());
+                        }
                         if escaped.borrow().len() != runs {
+                            cover(if reran { "bind-that-memoises-re-ran-twice" } else { "bind-that-memoises-re-ran" });
                             reran = true;
                             // later runs memoise their own functions: only the first one is exercised
                             escaped.borrow_mut().clear();
